@@ -64,14 +64,16 @@ type aliasSummary struct {
 }
 
 type aliasAn struct {
-	t      *tr
-	m      *fnMeta
-	sums   map[*fnMeta]*aliasSummary
-	evs    []aliasEv
-	arms   []armRef
-	loops  []ast.Node
-	params map[string]int
-	fresh  map[string][]ast.Node // local variable -> the loops around its declaration (a new variable in every iteration of those)
+	t       *tr
+	m       *fnMeta
+	sums    map[*fnMeta]*aliasSummary
+	evs     []aliasEv
+	arms    []armRef
+	loops   []ast.Node
+	params  map[string]int
+	ptrCopy map[string]string // local struct pointer -> the path it was copied from (`c := hs.c`): the translation copies the struct
+	ptrHaz  []string
+	fresh   map[string][]ast.Node // local variable -> the loops around its declaration (a new variable in every iteration of those)
 }
 
 func constInt(info *types.Info, e ast.Expr) (int, bool) {
@@ -400,6 +402,11 @@ func (an *aliasAn) call(c *ast.CallExpr, dst string) {
 		an.reads(a)
 	}
 	if recv != nil {
+		if callee != nil && callee.mutRecv {
+			if r := rootIdent(recv); r != "" {
+				an.ptrWrite(r, t.src(c))
+			}
+		}
 		if p, ok := pathOf(recv); ok && callee != nil && callee.mutRecv {
 			if sm := an.sums[callee]; sm == nil || sm.recvWrites {
 				an.add('w', p, "", -1, -1, c.End(), t.src(c))
@@ -512,8 +519,59 @@ func touches(p, q string) bool {
 }
 
 // bind: `lhs = rhs` / `lhs := rhs`
+func (an *aliasAn) isStructPtrIdent(id *ast.Ident) bool {
+	obj := an.t.info.Defs[id]
+	if obj == nil {
+		obj = an.t.info.Uses[id]
+	}
+	return obj != nil && obj.Type() != nil && isStructPtr(obj.Type())
+}
+
+// rootIdent: the variable an lvalue path starts at
+func rootIdent(e ast.Expr) string {
+	for {
+		switch x := e.(type) {
+		case *ast.SelectorExpr:
+			e = x.X
+		case *ast.IndexExpr:
+			e = x.X
+		case *ast.SliceExpr:
+			e = x.X
+		case *ast.StarExpr:
+			e = x.X
+		case *ast.ParenExpr:
+			e = x.X
+		case *ast.Ident:
+			return x.Name
+		default:
+			return ""
+		}
+	}
+}
+
+// ptrWrite: the struct that local pointer `root` points to is written; if `root` is a copy of another path
+// (c := hs.c) the translation has copied the struct and the write would be lost
+func (an *aliasAn) ptrWrite(root string, what string) {
+	if from, ok := an.ptrCopy[root]; ok {
+		an.ptrHaz = append(an.ptrHaz, fmt.Sprintf("%s is a copy of the pointer %s (a struct value in the translation); `%s` writes through it", root, from, what))
+	}
+}
+
 func (an *aliasAn) bind(lhs, rhs ast.Expr) {
 	t := an.t
+	if id, ok := lhs.(*ast.Ident); ok && id.Name != "_" && rhs != nil && an.isStructPtrIdent(id) {
+		if p, ok := pathOf(rhs); ok {
+			if an.ptrCopy == nil {
+				an.ptrCopy = map[string]string{}
+			}
+			an.ptrCopy[id.Name] = p
+		}
+	}
+	if _, isId := lhs.(*ast.Ident); !isId {
+		if r := rootIdent(lhs); r != "" {
+			an.ptrWrite(r, t.src(lhs))
+		}
+	}
 	dst := ""
 	if p, ok := pathOf(lhs); ok && isSliceish(t.typeOf(lhs)) {
 		dst = p
@@ -880,6 +938,12 @@ func (an *aliasAn) hazards() []string {
 					out = append(out, msg)
 				}
 			}
+		}
+	}
+	for _, h := range an.ptrHaz {
+		if !seen[h] {
+			seen[h] = true
+			out = append(out, h)
 		}
 	}
 	sort.Strings(out)
